@@ -2,7 +2,7 @@
 (* Behaviour generator for C03 mul / sqr / cubic / div / inv / sqrt: the FloatMulDivSqrt model is run
    over its scope (invariant Correct checked in the same pass) and the sampled `done` states print one
    case each, with the predicted result, flag and branch path. *)
-EXTENDS FloatMulDivSqrt, Json
+EXTENDS FloatMulDivSqrt, Json, TLC
 CONSTANTS Stride, Seed
 
 ModeNo == CASE mode = "Zero" -> 0 [] mode = "Away" -> 1 [] mode = "Up" -> 2 [] mode = "Down" -> 3
